@@ -83,6 +83,7 @@ type c25Conn struct {
 	readerWaiting bool
 	peer          *c25Conn
 	local, remote c25Addr
+	failWrites    atomic.Bool // injected fault: every Write on this end fails from now on (reads are unaffected)
 }
 
 func c25Pipe(srvAddr, remoteAddr string) (srvSide, remoteSide *c25Conn) {
@@ -112,6 +113,9 @@ func (c *c25Conn) Read(p []byte) (int, error) {
 }
 
 func (c *c25Conn) Write(p []byte) (int, error) {
+	if c.failWrites.Load() {
+		return 0, errors.New("c25: write: broken pipe")
+	}
 	d := c.peer
 	d.mu.Lock()
 	defer d.mu.Unlock()
@@ -170,6 +174,7 @@ func (l *c25LM) AcceptCh() chan tcp.ConnWithVRF              { return l.ch }
 
 type c25PeerCfg struct {
 	ibgp, addPath bool
+	v6            bool // IPv6 unicast configured as well (multiprotocol UPDATEs)
 }
 
 type c25SrvCfg struct {
@@ -177,7 +182,7 @@ type c25SrvCfg struct {
 }
 
 func (c c25SrvCfg) String() string {
-	return fmt.Sprintf("peer0{ibgp=%v ap=%v} peer1{ibgp=%v ap=%v}", c.peers[0].ibgp, c.peers[0].addPath, c.peers[1].ibgp, c.peers[1].addPath)
+	return fmt.Sprintf("peer0{ibgp=%v ap=%v v6=%v} peer1{ibgp=%v ap=%v v6=%v}", c.peers[0].ibgp, c.peers[0].addPath, c.peers[0].v6, c.peers[1].ibgp, c.peers[1].addPath, c.peers[1].v6)
 }
 
 type c25Session struct {
@@ -225,6 +230,18 @@ var c25SrvPfxs = func() []*bnet.Prefix {
 	return out
 }()
 
+var c25SrvPfxs6 = func() []*bnet.Prefix {
+	var out []*bnet.Prefix
+	for _, s := range []string{"2001:db8::/32", "2001:db8:1::/48", "2001:db8:1:2::/64", "2001:db8:ffff::/48"} {
+		p, err := bnet.PrefixFromString(s)
+		if err != nil {
+			panic(err)
+		}
+		out = append(out, p.Dedup())
+	}
+	return out
+}()
+
 func c25SrvChain(i int) filter.Chain {
 	switch i % 4 {
 	case 0:
@@ -252,7 +269,7 @@ func c25SrvChain(i int) filter.Chain {
 func c25SrvGenCfg(s c25SrvSrc) c25SrvCfg {
 	var c c25SrvCfg
 	for i := range c.peers {
-		c.peers[i] = c25PeerCfg{ibgp: s.Intn(2) == 0, addPath: s.Intn(2) == 0}
+		c.peers[i] = c25PeerCfg{ibgp: s.Intn(2) == 0, addPath: s.Intn(2) == 0, v6: s.Intn(2) == 0}
 	}
 	return c
 }
@@ -267,7 +284,7 @@ func (r *c25SrvRig) peerConfig(i int) PeerConfig {
 	if rm.cfg.addPath {
 		af.AddPathSend = routingtable.ClientOptions{MaxPaths: 4}
 	}
-	return PeerConfig{
+	pc := PeerConfig{
 		AdminEnabled: true,
 		KeepAlive:    30 * time.Second,
 		HoldTime:     90 * time.Second,
@@ -280,6 +297,14 @@ func (r *c25SrvRig) peerConfig(i int) PeerConfig {
 		IPv4:         af,
 		VRF:          r.v,
 	}
+	if rm.cfg.v6 {
+		pc.IPv6 = &AddressFamilyConfig{
+			ImportFilterChain: filter.NewAcceptAllFilterChain(),
+			ExportFilterChain: filter.NewAcceptAllFilterChain(),
+			AddPathSend:       routingtable.ClientOptions{BestOnly: true},
+		}
+	}
+	return pc
 }
 
 // c25NewSrvRig builds the server. noExport: the history contains no ReplaceExportFilterChain, so the listed
@@ -359,6 +384,11 @@ func (r *c25SrvRig) connect(rm *c25Remote) bool {
 	caps := packet.Capabilities{
 		{Code: packet.ASN4CapabilityCode, Value: packet.ASN4Capability{ASN4: rm.asn}},
 	}
+	if rm.cfg.v6 {
+		caps = append(caps,
+			packet.Capability{Code: packet.MultiProtocolCapabilityCode, Value: packet.MultiProtocolCapability{AFI: packet.AFIIPv4, SAFI: packet.SAFIUnicast}},
+			packet.Capability{Code: packet.MultiProtocolCapabilityCode, Value: packet.MultiProtocolCapability{AFI: packet.AFIIPv6, SAFI: packet.SAFIUnicast}})
+	}
 	if rm.cfg.addPath {
 		caps = append(caps, packet.Capability{Code: packet.AddPathCapabilityCode, Value: packet.AddPathCapability{
 			packet.AddPathCapabilityTuple{AFI: packet.AFIIPv4, SAFI: packet.SAFIUnicast, SendReceive: packet.AddPathReceive},
@@ -398,6 +428,46 @@ func (r *c25SrvRig) sync(s *c25Session) {
 func (r *c25SrvRig) update(rm *c25Remote, pi, v int, withdraw bool) []byte {
 	pfx := c25SrvPfxs[pi%len(c25SrvPfxs)]
 	u := &packet.BGPUpdate{}
+	if rm.cfg.v6 && v%2 == 1 {
+		// multiprotocol IPv6: MP_UNREACH_NLRI, MP_REACH_NLRI, or (v = 5) both in one UPDATE
+		p6 := c25SrvPfxs6[pi%len(c25SrvPfxs6)]
+		other := c25SrvPfxs6[(pi+1)%len(c25SrvPfxs6)]
+		var first, last *packet.PathAttribute
+		add := func(pa *packet.PathAttribute) {
+			if first == nil {
+				first = pa
+			} else {
+				last.Next = pa
+			}
+			last = pa
+		}
+		if withdraw || v == 5 {
+			wp := p6
+			if !withdraw {
+				wp = other
+			}
+			add(&packet.PathAttribute{TypeCode: packet.MultiProtocolUnreachNLRIAttr, Value: packet.MultiProtocolUnreachNLRI{AFI: packet.AFIIPv6, SAFI: packet.SAFIUnicast, NLRI: &packet.NLRI{Prefix: wp}}})
+		}
+		if !withdraw {
+			asns := []uint32{65300 + uint32(v)}
+			if !rm.cfg.ibgp {
+				asns = append([]uint32{rm.asn}, asns...)
+			}
+			add(&packet.PathAttribute{TypeCode: packet.OriginAttr, Value: uint8(0)})
+			add(&packet.PathAttribute{TypeCode: packet.ASPathAttr, Value: types.NewASPath(asns)})
+			if rm.cfg.ibgp {
+				add(&packet.PathAttribute{TypeCode: packet.LocalPrefAttr, Value: uint32(100 + 10*v)})
+			}
+			nh6 := bnet.IPv6FromBlocks(0x2001, 0xdb8, 0, 0, 0, 0, 0, uint16(0x100+rm.idx)).Dedup()
+			add(&packet.PathAttribute{TypeCode: packet.MultiProtocolReachNLRIAttr, Value: packet.MultiProtocolReachNLRI{AFI: packet.AFIIPv6, SAFI: packet.SAFIUnicast, NextHop: nh6, NLRI: &packet.NLRI{Prefix: p6}}})
+		}
+		u.PathAttributes = first
+		b, err := u.SerializeUpdate(&packet.EncodeOptions{Use32BitASN: true})
+		if err != nil {
+			panic(err)
+		}
+		return b
+	}
 	if withdraw {
 		u.WithdrawnRoutes = &packet.NLRI{Prefix: pfx}
 	} else {
@@ -439,6 +509,7 @@ const (
 	c25RKeepalive
 	c25RNotify
 	c25RSecondConn
+	c25RWriteFault
 	c25AMetrics
 	c25ADumpIn
 	c25ADumpOut
@@ -452,10 +523,10 @@ const (
 	c25SrvNKinds
 )
 
-var c25SrvKindName = [...]string{"RAnnounce", "RWithdraw", "RKeepalive", "RNotify", "RSecondConn",
+var c25SrvKindName = [...]string{"RAnnounce", "RWithdraw", "RKeepalive", "RNotify", "RSecondConn", "RWriteFault",
 	"AMetrics", "ADumpIn", "ADumpOut", "AGetPeers", "ARFCImport", "ARFCExport", "ADirectFeed", "ADirectWithdraw", "ADispose", "AAddPeer"}
 
-var c25SrvWeights = [...]int{12, 5, 2, 2, 1,
+var c25SrvWeights = [...]int{12, 5, 2, 2, 1, 2,
 	6, 4, 4, 2, 4, 6, 5, 2, 2, 2}
 
 const c25SrvFirstAPI = c25AMetrics
@@ -583,6 +654,17 @@ func (r *c25SrvRig) exec(op c25SrvOp) string {
 		})
 		rm.cur = nil
 		return "remote_notification"
+	case c25RWriteFault:
+		defer r.markRemote()()
+		s := r.live(rm)
+		if s == nil {
+			return ""
+		}
+		// the path to the neighbour breaks in the outbound direction: whatever the server writes from now on
+		// (UPDATEs of the sender goroutine, KEEPALIVEs, the final NOTIFICATION) fails; the session stays up
+		// until a later event ends it
+		s.srv.failWrites.Store(true)
+		return "remote_write_fault"
 	case c25RSecondConn:
 		defer r.markRemote()()
 		if rm.cur == nil || rm.cur.remote.isClosed() || !r.present[rm.idx].Load() {
@@ -607,11 +689,17 @@ func (r *c25SrvRig) exec(op c25SrvOp) string {
 		return "api_metrics"
 	case c25ADumpIn:
 		defer r.markAPI()()
-		if rib := r.srv.GetRIBIn(r.v, pip, packet.AFIIPv4, packet.SAFIUnicast); rib != nil {
+		afi := uint16(packet.AFIIPv4)
+		nonEmpty6 := false
+		if rm.cfg.v6 && op.v%2 == 1 {
+			afi = packet.AFIIPv6
+		}
+		if rib := r.srv.GetRIBIn(r.v, pip, afi, packet.SAFIUnicast); rib != nil {
 			// what the RIS / gRPC API readers do; repeated so that a reader is likely to be active while the
 			// session stores a new path
 			for k := 0; k < 4; k++ {
 				for _, rt := range rib.Dump() {
+					nonEmpty6 = nonEmpty6 || afi == packet.AFIIPv6
 					_ = rt.ToProto()
 					if got := rib.Get(rt.Prefix()); got != nil {
 						_ = got.ToProto()
@@ -620,10 +708,17 @@ func (r *c25SrvRig) exec(op c25SrvOp) string {
 				runtime.Gosched()
 			}
 		}
+		if nonEmpty6 {
+			return "api_dump_rib_in_v6_routes"
+		}
 		return "api_dump_rib_in"
 	case c25ADumpOut:
 		defer r.markAPI()()
-		if rib := r.srv.GetRIBOut(r.v, pip, packet.AFIIPv4, packet.SAFIUnicast); rib != nil {
+		afi := uint16(packet.AFIIPv4)
+		if rm.cfg.v6 && op.v%2 == 1 {
+			afi = packet.AFIIPv6
+		}
+		if rib := r.srv.GetRIBOut(r.v, pip, afi, packet.SAFIUnicast); rib != nil {
 			for _, rt := range rib.Dump() {
 				_ = rt.ToProto()
 			}
